@@ -6,6 +6,8 @@ import (
 	"regexp"
 	"strconv"
 	"strings"
+	"sync"
+	"time"
 
 	"github.com/antchfx/xpath"
 )
@@ -130,4 +132,58 @@ func runRegex(c *Case, tree *Tree) string {
 		got = want
 	}
 	return "regex:" + got + "~" + want
+}
+
+// runCacheConc: extra = "<cap>;<goroutines>;<rounds>".  In every round g goroutines miss on g distinct
+// keys; the load function holds them all (barrier with a timeout) until each is past its lookup, so the
+// stores happen back to back after the unlocked window.  Reports size after each round and exactness.
+func runCacheConc(c *Case) string {
+	p := strings.Split(c.Extra, ";")
+	capacity, _ := strconv.Atoi(p[0])
+	gor, _ := strconv.Atoi(p[1])
+	rounds, _ := strconv.Atoi(p[2])
+	var mu sync.Mutex
+	waiting := 0
+	release := make(chan struct{})
+	vc := xpath.VerifNewCache(func(key interface{}) (interface{}, error) {
+		mu.Lock()
+		waiting++
+		if waiting == gor {
+			close(release)
+		}
+		ch := release
+		mu.Unlock()
+		select {
+		case <-ch:
+		case <-time.After(500 * time.Millisecond):
+		}
+		return "V" + key.(string), nil
+	}, capacity)
+	var outs []string
+	for rd := 0; rd < rounds; rd++ {
+		mu.Lock()
+		waiting = 0
+		release = make(chan struct{})
+		mu.Unlock()
+		var wg sync.WaitGroup
+		bad := int32(0)
+		var badMu sync.Mutex
+		for i := 0; i < gor; i++ {
+			wg.Add(1)
+			go func(i int) {
+				defer wg.Done()
+				k := fmt.Sprintf("r%dk%d", rd, i)
+				v, err := vc.Get(k)
+				if err != nil || v != "V"+k {
+					badMu.Lock()
+					bad++
+					badMu.Unlock()
+				}
+			}(i)
+		}
+		wg.Wait()
+		size, _, _ := vc.Stats()
+		outs = append(outs, fmt.Sprintf("%d/%d", size, bad))
+	}
+	return "cachec:" + strings.Join(outs, ",")
 }
